@@ -41,27 +41,27 @@ func (f Finding) Has(prop string) bool {
 
 // HistOpts configures the history generator
 type HistOpts struct {
-	NPipes        int
-	MaxOps        int
-	Pipe          gen.PipeOpts
-	Classes       []gen.ConfigClass // if set, pipeline i gets class Classes[i]
-	SlowStopProb  float64
-	BadVarProb    float64 // probability that a schedule request carries the reserved variable (job cannot be started)
-	FailProb      float64
-	AvoidAmbig    bool
-	Watchdog      time.Duration
-	WSchedule     int
-	WFinish       int
-	WCancel       int
-	WFire         int
-	WStopRel      int
-	WRead         int
-	WReload       int  // weight of definition reload operations (C16)
-	WSave         int    // weight of explicit SaveToStore operations (needs StoreDir)
-	StoreDir      string // if set the runner persists to a real JsonDataStore in this directory (wrapped by a recording store)
-	RichVars      bool   // job variables are arbitrary JSON values
-	Retention     bool   // pipelines get a retention_count (1-2): saves remove finished jobs
-	HTTP          bool // observe (and drive half of the requests) through the real HTTP handler with a valid token
+	NPipes       int
+	MaxOps       int
+	Pipe         gen.PipeOpts
+	Classes      []gen.ConfigClass // if set, pipeline i gets class Classes[i]
+	SlowStopProb float64
+	BadVarProb   float64 // probability that a schedule request carries the reserved variable (job cannot be started)
+	FailProb     float64
+	AvoidAmbig   bool
+	Watchdog     time.Duration
+	WSchedule    int
+	WFinish      int
+	WCancel      int
+	WFire        int
+	WStopRel     int
+	WRead        int
+	WReload      int    // weight of definition reload operations (C16)
+	WSave        int    // weight of explicit SaveToStore operations (needs StoreDir)
+	StoreDir     string // if set the runner persists to a real JsonDataStore in this directory (wrapped by a recording store)
+	RichVars     bool   // job variables are arbitrary JSON values
+	Retention    bool   // pipelines get a retention_count (1-2): saves remove finished jobs
+	HTTP         bool   // observe (and drive half of the requests) through the real HTTP handler with a valid token
 }
 
 func (o *HistOpts) defaults() {
@@ -107,22 +107,22 @@ type HistResult struct {
 }
 
 type seqRun struct {
-	o     HistOpts
-	r     *rand.Rand
-	sys   *core.Sys
-	m     *model.Model
-	specs []gen.PipeSpec
-	jobs  []*JobRec
-	byID  map[string]*JobRec
-	res   *HistResult
-	step  int
-	view  core.View
-	dead  bool // a watchdog fired: stop driving
-	api   *core.API
+	o            HistOpts
+	r            *rand.Rand
+	sys          *core.Sys
+	m            *model.Model
+	specs        []gen.PipeSpec
+	jobs         []*JobRec
+	byID         map[string]*JobRec
+	res          *HistResult
+	step         int
+	view         core.View
+	dead         bool // a watchdog fired: stop driving
+	api          *core.API
 	orders       map[string][]string
 	orderChecked map[string]bool
 	reloaded     bool
-	removed      []gen.PipeSpec // pipelines removed by a reload (may be re-added)
+	removed      []gen.PipeSpec  // pipelines removed by a reload (may be re-added)
 	fired        map[string]bool // jobs whose delay was fired by the driver
 	everRemoved  map[string]bool // pipelines that did not remain defined throughout the history
 	maxConc      map[string]int  // largest concurrency in force for a pipeline during the history
